@@ -77,4 +77,4 @@ Proof.
     match goal with |- context [len L <? ?e] => destruct (len L <? e) eqn:El; [reflexivity|] end.
   all: repeat (cbn [bind]; try (rewrite Ht by (rewrite ?Hs, ?Hs; lia))).
   all: subst L; f_equal; f_equal.
-Abort.
+Qed.
